@@ -372,7 +372,7 @@ type hreg struct {
 }
 
 type obsRec struct {
-	obj            int // memo segment
+	obj            int   // memo segment
 	facts          Facts // of the object actually linted (a variant of the segment's base has its own)
 	st             []int8
 	dg             []string // interned
